@@ -246,12 +246,14 @@ func BuildTypeCtxByIndex(typeType *parser.TypeTypeContext, typeCtx *parser.Class
 }
 
 func (s *JavaFullListener) EnterLocalVariableDeclaration(ctx *parser.LocalVariableDeclarationContext) {
-	typ := ctx.GetChild(0).(antlr.ParseTree).GetText()
-	if ctx.GetChild(1) != nil {
-		if ctx.GetChild(1).GetChild(0) != nil && ctx.GetChild(1).GetChild(0).GetChild(0) != nil {
-			variableName := ctx.GetChild(1).GetChild(0).GetChild(0).(antlr.ParseTree).GetText()
-			localVars[variableName] = typ
-		}
+	// modifiers (`final`, annotations) may come before the type
+	if ctx.TypeType() == nil || ctx.VariableDeclarators() == nil {
+		return
+	}
+	typ := ctx.TypeType().GetText()
+	for _, declarator := range ctx.VariableDeclarators().(*parser.VariableDeclaratorsContext).AllVariableDeclarator() {
+		variableName := declarator.(*parser.VariableDeclaratorContext).VariableDeclaratorId().GetText()
+		localVars[variableName] = typ
 	}
 }
 
